@@ -30,7 +30,7 @@ Encodings (no spaces):  string  = code points joined by `.`            (empty st
                                text=<padWith w tokens> parsed=<spec parseJsonWs(text)|ERR> okws=<1 iff every w is whitespace>
   J2XE p=<policy> [r=…] v=<value> -> xml=<model json-to-xml(·, escape:true) with flags: E<tag>(<key>;<escaped-key 0|1><escaped 0|1>;<text>;[…])|ERR>
                                json=<model xml-to-json reading the flags|ERR:code> parsed=<spec parseJson(json)|ERR>
-  CRMARK a=<0|1 scan attribute values> p=<pieces `M|U|C|A|R`+string joined by `,`> (markup, ns uri, chars, attr, raw)
+  CRMARK a=<0 text+tails | 1 + attribute values (before the F17x fix) | 2 every string (fixed tree)> p=<pieces `M|U|C|A|R`+string joined by `,`> (markup, ns uri, chars, attr, raw)
                             -> mark=<chosen mark|none> out=<model serialize_to_xml of the element|ERR> want=<wanted output>
                                coll=<markCollides (F17x trigger)> cr=<piecesHaveCR>
 -/
@@ -323,7 +323,7 @@ def answer (line : String) : String :=
     match ((field fs "p").splitOn ",").mapM pieceOf with
     | none => "bad-pieces"
     | some ps =>
-      let attrs := field fs "a" != "0"
+      let attrs : Scan := if field fs "a" == "0" then .textTail else if field fs "a" == "1" then .values else .all
       let mk := chooseMark (usedChars attrs ps)
       s!"mark={match mk with | some k => toString k | none => "none"} out={showOptStr (serializeRepo attrs ps)} " ++
       s!"want={showStr (wantedOutput ps)} coll={b01 (markCollides attrs ps)} cr={b01 (piecesHaveCR ps)}"
